@@ -298,6 +298,10 @@ def run(prog, rep):
     # ---------------------------------------------------------------- R1.7 strings keep their length on the way through the library
     from rules import lengths
     lengths.check(prog, rep, 'R1.7')
+    rep.rule('R1.12', 'MsgPack binary form of a chrono value, both writers: over the (seconds, nanoseconds) cells the layout chosen (timestamp 32 / 64 / 96) '
+                      'holds the whole value - a layout whose seconds field is narrower than the value cannot load back equal', floor=20)
+    from rules import c06 as _c06
+    _c06.check_timestamp_writers(prog, rep, 'R1.12')
     rep.rule('R1.8', 'a value the stream reader delivers in several chunks is assembled in order: one generic iteration of every ReadByChunks loop - the '
                      'chunk is appended whole (or copied to a running offset that advances by its size), the byte counter drops by its size, nothing else '
                      'rewrites the buffer', floor=1)
